@@ -153,7 +153,15 @@ impl<'a> G<'a> {
         let n = self.pos_int(1);
         match self.r.below(6) {
             0..=2 => E::Call("Ada".into(), vec![n]),
-            3..=4 if !self.tokens.is_empty() => E::Call(self.r.pick(&self.tokens).clone(), vec![n]),
+            3 if !self.tokens.is_empty() => E::Call(self.r.pick(&self.tokens).clone(), vec![n]),
+            // the same class written through the policy definition: `AnyAsset(Pol, "TK", n)`
+            4 if !self.tokens.is_empty() => {
+                if self.r.chance(1, 2) {
+                    E::Call(self.r.pick(&self.tokens).clone(), vec![n])
+                } else {
+                    E::AnyAsset(Box::new(E::Id("Pol".into())), Box::new(E::Str("TK".into())), Box::new(n))
+                }
+            }
             _ => E::AnyAsset(Box::new(E::Hex(hx(&POLICY_ANY))), Box::new(if self.r.chance(1, 2) { E::Str("ANY".into()) } else { E::Hex("414e59".into()) }), Box::new(n)),
         }
     }
